@@ -490,6 +490,76 @@ theorem withdraw_spec {W U : Nat} {m m' : Market} {w : WithdrawParams} {pin : Pe
                                         · show sup + w.amount = m.supply
                                           omega
 
+/-- what a successful deposit did: the two sides are two `executeDeposit` runs at the same pool
+value (maximised, `MaxAfterDeposit`) and supply, then the sum is minted. -/
+structure DepositFacts (W U : Nat) (m m' : Market) (d : DepositParams) (pin : PerpIn) (t : DepositTrace) : Prop where
+  nonempty : ¬ (d.long = 0 ∧ d.short = 0)
+  pv : poolValue W U m d.prices .maxAfterDeposit true pin = some (t.poolValue : Int)
+  sides : ∃ mL mS,
+    (d.long ≠ 0 → SideFacts W m mL d true t.poolValue t.long) ∧ (d.long = 0 → mL = m ∧ t.long = {}) ∧
+    (d.short ≠ 0 → SideFacts W mL mS d false t.poolValue t.short) ∧ (d.short = 0 → mS = mL ∧ t.short = {}) ∧
+    m' = { mS with supply := m'.supply } ∧ m'.supply = mS.supply + t.report.minted
+  minted : t.report.minted = t.long.minted + t.short.minted
+  feesL : t.report.feesL = t.long.fees
+  feesS : t.report.feesS = t.short.fees
+
+theorem deposit_spec {W U : Nat} {m m' : Market} {d : DepositParams} {pin : PerpIn} {t : DepositTrace}
+    (h : deposit W U m d pin = (m', .ok t)) : DepositFacts W U m m' d pin t := by
+  unfold deposit at h
+  split at h
+  · cases h
+  · rename_i hne
+    split at h
+    · cases h
+    · split at h
+      · cases h
+      · rename_i impact bc usdL usdS himp
+        split at h
+        · cases h
+        · rename_i pv hpv
+          split at h
+          · cases h
+          · rename_i hnn
+            simp only at h
+            have hpvn : ((pv.natAbs : Nat) : Int) = pv := by omega
+            split at h
+            · cases h
+            · rename_i mL rL hL
+              split at h
+              · cases h
+              · rename_i mS rS hS
+                split at h
+                · cases h
+                · rename_i minted hminted
+                  have hminted := checkedAdd_eq hminted
+                  split at h
+                  · cases h
+                  · rename_i sup hsup
+                    have hsup := checkedAdd_eq hsup
+                    cases h
+                    refine ⟨hne, by rw [hpvn]; exact hpv, ⟨mL, mS, ?_, ?_, ?_, ?_, rfl, hsup⟩, hminted, rfl, rfl⟩
+                    · intro hl
+                      simp only [hl, ne_eq, not_false_eq_true, if_true] at hL
+                      split at hL
+                      · cases hL
+                      · split at hL
+                        · cases hL
+                        · exact executeDeposit_spec hL
+                    · intro hl
+                      simp only [hl, ne_eq, not_true_eq_false, if_false] at hL
+                      cases hL; exact ⟨rfl, rfl⟩
+                    · intro hs
+                      simp only [hs, ne_eq, not_false_eq_true, if_true] at hS
+                      split at hS
+                      · cases hS
+                      · split at hS
+                        · cases hS
+                        · exact executeDeposit_spec hS
+                    · intro hs
+                      simp only [hs, ne_eq, not_true_eq_false, if_false] at hS
+                      cases hS; exact ⟨rfl, rfl⟩
+
 end Gmx.Lem
+
 
 
